@@ -21,7 +21,8 @@ func TestMain(m *testing.M) {
 		"(a) the real per-target line writer is driven by generated rounds of Write chunks followed by Flush (empty chunks, boundaries inside, at and after "+
 			"newlines, trailing partial lines, only newlines; 1-3 rounds on one writer, as repeated runs of one loaded project do). Model: each round delivers "+
 			"split(text, newline) without a final empty element, in order, exactly once. (b) rapid draws projects and histories as in C01 whose bodies "+
-			"print() and write generated chunked output, with failing bodies, removed (missing) dependencies, dependency cycles written in BUILD files, dry "+
+			"print() and write generated chunked output, with failing bodies (some of which first remove the state directory's temp folder, so that recording "+
+			"the failure fails too), removed (missing) dependencies, dependency cycles written in BUILD files, dry "+
 			"runs, sub-target builds and repeated runs of one loaded project; targets run in parallel. Oracle per build and label: the event sequence is "+
 			"UpToDate | Evaluating Print* (Succeeded|Failed) | Failed, a lone Failed only for a target with a missing dependency or on/behind a cycle, "+
 			"nothing at all only downstream of a failure; every Print lies between that label's Evaluating and its completion and the printed lines equal "+
@@ -325,7 +326,13 @@ func exec(c Case) (v ev.Verdict) {
 		id := live[op.T%len(live)]
 		lbl := m.Label(id)
 		for _, f := range op.Fail {
-			sim.SetFail(m.Targets[live[f%len(live)]].Name(), true)
+			name := m.Targets[live[f%len(live)]].Name()
+			sim.SetFail(name, true)
+			if op.I%3 == 1 {
+				// the failing body also removes the temp folder of the state directory first, so
+				// that recording the failure fails as well
+				sim.SetWipe(name)
+			}
 		}
 		repeat := 0
 		if op.I%4 == 3 && !op.Dry && len(op.Fail) == 0 {
